@@ -382,6 +382,81 @@ theorem C12_cascade_terminates_on_every_graph (fks : List FkDecl) (hco : Cascade
     exact key _ [] db hu (fun v hv => hu t v (List.mem_filter.mp hv).1) he
   · simp
 
+/-- Preservation for the repaired executor (visited set, selected rows found again by primary key):
+on a ranked graph with CASCADE / NO ACTION keys, an accepted DELETE of any set of rows keeps every
+foreign key, only removes rows, and removes every selected row.  (`hpk`: the keys that reference `t`
+reference its primary key.) -/
+theorem C12_delete_cascade_preserves_repaired (fks : List FkDecl) (hco : CascadeOnly fks) (rank : Nat → Nat)
+    (hrk : Ranked fks rank) (fuel : Nat) (db db' : Db) (t : Nat) (pk : List Nat) (sel : Row → Bool)
+    (hpk : ∀ d ∈ fks, d.parent = t → d.pcols = pk) (h : DbInv fks db)
+    (hr : deleteWithFksV fks fuel db t pk sel = .ok db') :
+    DbInv fks db' ∧ Sub db' db ∧ ∀ r ∈ db' t, sel r = false := by
+  have key : ∀ (vs : List Row) (seen : Seen) (db0 db1 : Db) (seen1 : Seen), DbInv fks db0 →
+      runVictimsV (fun _ db v => checkRowV fks fuel [] db t v) vs seen db0 = .ok (db1, seen1) →
+      DbInv fks db1 ∧ Sub db1 db0 ∧ ∀ v ∈ vs, NoRef fks db1 t v := by
+    intro vs
+    induction vs with
+    | nil =>
+      intro seen db0 db1 seen1 h0 hr0
+      simp only [runVictimsV, Except.ok.injEq, Prod.mk.injEq] at hr0
+      obtain ⟨rfl, rfl⟩ := hr0
+      exact ⟨h0, Sub.refl _, by simp⟩
+    | cons v vs ih =>
+      intro seen db0 db1 seen1 h0 hr0
+      unfold runVictimsV at hr0
+      split at hr0
+      · simp at hr0
+      · rename_i db2 seen2 h2
+        obtain ⟨a1, a2, a3, _, _, _⟩ := checkRowV_spec fks hco rank hrk fuel t [] db0 v db2 seen2 h0
+          (by intro p hp; simp at hp) h2
+        obtain ⟨b1, b2, b3⟩ := ih seen2 db2 db1 seen1 a1 hr0
+        refine ⟨b1, b2.trans a2, ?_⟩
+        intro x hx
+        rcases List.mem_cons.mp hx with rfl | hx
+        · exact a3.mono b2
+        · exact b3 x hx
+  unfold deleteWithFksV at hr
+  simp only [] at hr
+  split at hr
+  · simp at hr
+  · rename_i db1 seen1 h1
+    obtain ⟨a1, a2, a3⟩ := key _ [] db db1 seen1 h h1
+    simp only [Except.ok.injEq] at hr; subst hr
+    have hsub1 : Sub (db1.set t ((db1 t).filter (fun r =>
+        !((((db t).filter sel).map (keyOf pk)).contains (keyOf pk r))))) db1 := by
+      intro i r hr'
+      simp only [Db.set] at hr'
+      split at hr'
+      · rename_i hi; subst hi; exact (List.mem_filter.mp hr').1
+      · exact hr'
+    refine ⟨?_, hsub1.trans a2, ?_⟩
+    · intro d hd c hc hn
+      have hc1 : c ∈ db1 d.child := hsub1 _ c hc
+      obtain ⟨p, hp, hk⟩ := a1 d hd c hc1 hn
+      refine ⟨p, ?_, hk⟩
+      simp only [Db.set]
+      split
+      · rename_i hpt
+        rw [List.mem_filter]
+        refine ⟨by rw [← hpt]; exact hp, ?_⟩
+        simp only [Bool.not_eq_true', List.contains_eq_mem, decide_eq_false_iff_not, List.mem_map, not_exists, not_and]
+        intro v hv hkv
+        have hnr := a3 v hv d hd hpt c hc1
+        have hpc : d.pcols = pk := hpk d hd hpt
+        have hk2 : keyOf d.fk.pcols v = keyOf d.fk.cols c := by
+          have e : d.fk.pcols = d.pcols := rfl
+          rw [e, hpc, hkv, ← hpc, ← e]; exact hk
+        rw [refers_of_key hn hk2] at hnr
+        exact absurd hnr (by simp)
+      · exact hp
+    · intro r hr'
+      simp only [Db.set, if_true, List.mem_filter, Bool.not_eq_true', List.contains_eq_mem,
+        decide_eq_false_iff_not, List.mem_map, not_exists, not_and] at hr'
+      cases hs : sel r with
+      | false => rfl
+      | true =>
+        exact absurd rfl (hr'.2 r ⟨a2 _ r hr'.1, hs⟩)
+
 /-- the 1 → 2 → 1 cycle that exhausted every fuel now ends with both rows deleted -/
 example : (match deleteWithFksV cycleFks 3 cycleDb 0 [0] (fun r => r.getD 0 .null == .int 1) with
     | .ok db => some (db 0)
